@@ -263,6 +263,72 @@ async def sessions_scenario(prog, user, pw):
     return errors, tuple(sig)
 
 
+async def maildir_scenario(prog):
+    """the maildir backend's store (one file, dovecot.sieve, served under the name 'active'), held to the same statement,
+    wire-only: a PUTSCRIPT that is answered OK is there for GETSCRIPT (the same bytes, zero of them included) and for
+    LISTSCRIPTS; a script listed ACTIVE cannot be deleted"""
+    from .imapdrv import MaildirWorld
+    errors = []
+    w = await MaildirWorld(layout='++').start()
+    c = SieveClient(w, 'c')
+    sig = []
+    try:
+        await c.response()
+        r = await c.auth(b'alice', b'apass')
+        if cond(r) != b'OK':
+            errors.append(('harness', f'authentication answered {r}'))
+        held = {}
+        before = parse_list(await c.cmd(b'LISTSCRIPTS'))
+        for step, cmd in enumerate(prog):
+            where = f'step {step} {wire(cmd)[:40]!r}'
+            r = await c.cmd(wire(cmd))
+            got = cond(r)
+            sig.append((cmd[0], got))
+            listed = parse_list(await c.cmd(b'LISTSCRIPTS'))
+            if cmd[0] == 'put' and got == b'OK':
+                held[cmd[1]] = cmd[2]
+                r2 = await c.cmd(wire(('get', cmd[1])))
+                body = b''.join(r2[:-1])
+                m = re.match(rb'\{(\d+)\}\r\n', body)
+                data = body[m.end():m.end() + int(m.group(1))] if m else body
+                lab = 'maildir_put_then_get_other_name' if cmd[1] != 'active' else 'maildir_put_then_get'
+                if cond(r2) != b'OK' or data != cmd[2]:
+                    errors.append((lab, f'{where}: answered OK; GETSCRIPT {cmd[1]!r} then answers {cond(r2)} {data!r}, stored were '
+                                        f'{cmd[2]!r} ({len(cmd[2])} bytes)'))
+                elif cmd[1] not in listed:
+                    errors.append((lab, f'{where}: answered OK; LISTSCRIPTS then lists {listed}'))
+            if cmd[0] == 'delete' and got == b'OK':
+                if before.get(cmd[1]):
+                    errors.append(('maildir_active_script_cannot_be_deleted',
+                                   f'{where}: {cmd[1]!r} was listed ACTIVE and DELETESCRIPT answered OK (now listed: {listed})'))
+                held.pop(cmd[1], None)
+            before = listed
+            if [e for e in errors if e[0] == 'harness']:
+                break
+    finally:
+        await w.close()
+        w.cleanup()
+        c.reader.feed_eof()
+        for _ in range(50):
+            if c.task.done():
+                break
+            await asyncio.sleep(0)
+        if not c.task.done():
+            c.task.cancel()
+    return errors, tuple(sig)
+
+
+MAILDIR_PROGS = [
+    (('put', 'active', GOOD), ('get', 'active'), ('put', 'active', OTHER), ('list',)),
+    (('put', 'active', b''), ('get', 'active'), ('list',)),
+    (('put', 'active', GOOD), ('put', 'active', b''), ('put', 'active', OTHER)),
+    (('put', 'foo', GOOD), ('list',)),
+    (('put', 'active', GOOD), ('delete', 'active'), ('list',)),
+    (('put', 'active', GOOD), ('setactive', 'active'), ('delete', 'active')),
+    (('get', 'active'), ('delete', 'zz'), ('setactive', 'zz'), ('put', 'active', GOOD), ('get', 'zz')),
+]
+
+
 async def scenario(prog, mode):
     """mode: 'auth' (testuser authenticated), 'preauth' (not authenticated), 'two-users', 'relogin'"""
     errors = []
@@ -346,7 +412,9 @@ async def scenario(prog, mode):
 def _worker(args):
     prog, mode = args
     try:
-        if mode.startswith('sessions-'):
+        if mode == 'maildir':
+            errs, sig = run(maildir_scenario(prog))
+        elif mode.startswith('sessions-'):
             errs, sig = run(sessions_scenario(prog, *{'sessions-fresh-user': (b'other', b'otherpass'),
                                                       'sessions-demo-user': (b'testuser', b'testpass')}[mode]))
         else:
@@ -372,6 +440,7 @@ def bounded_sieve(label):
             items.append(((c,), 'sessions-fresh-user'))
             items.append((EMPTY + (c,), 'sessions-demo-user'))
         items.append((EMPTY, 'sessions-demo-user'))
+        items += [(p, 'maildir') for p in MAILDIR_PROGS]
         for p in itertools.product(SCRIPT_CMDS[:6], repeat=2):
             items.append((p, 'sessions-fresh-user'))
         if tier != 'quick':
@@ -384,7 +453,14 @@ def bounded_sieve(label):
             for args, errs, sig in pool.imap_unordered(_worker, items, chunksize=16):
                 res.evaluations += 1
                 res.distinct.add((args[1], sig))
-                if errs:
+                if errs and isinstance(errs[0], tuple):
+                    seen = set()
+                    for lab, text in errs:
+                        if lab not in seen:
+                            seen.add(lab)
+                            res.fail(f'{label}/{lab}', dict(backend='maildir', program=[wire(c)[:50].decode('latin1') for c in args[0]]),
+                                     [text])
+                elif errs:
                     res.fail(f'{label}/script_store_is_a_per_user_map_behind_the_login_gate',
                              dict(mode=args[1], program=[wire(c)[:50].decode('latin1') for c in args[0]]), errs[:3])
                 elif len(res.samples) < 2:
